@@ -474,6 +474,36 @@ def run(ctx):
     ctx.obligation("property predicate (independent numpy reference) on every case", not pred_bad,
                    "%d of %d cases violate; first: %s" % (len(pred_bad), len(cases), pred_bad[:1]))
 
+    # ---- parameters changed on an object that has already been evaluated (state kept between calls) ----
+    mut_bad = []
+    for k_mut in range(4 if quick else 20):
+        spec = specs[k_mut % len(specs)]
+        mat = make_fluid(spec)
+        num0 = fluid_numbers(mat)
+        n = 6
+        T = np.array(temps(rng, num0, n)[:n], dtype=float)
+        u = np.array(velocities(rng, n)[:n], dtype=float)
+        r_ = np.array(radii(rng, n)[:n], dtype=float)
+        run_real(mat, T, u, r_)                                   # first use with the parameters as loaded
+        lo, hi = num0["T_min"], num0["T_max"]
+        new = {"T_min": lo + 0.3 * (hi - lo), "T_max": hi - 0.3 * (hi - lo),
+               "laminar_value": rng.choice([3.66, 5.0]), "laminar_cutoff": rng.choice([1500.0, 4000.0, 1.0e5]),
+               "film_min": 10 ** rng.uniform(-7, -4)}
+        for name, val in new.items():
+            setattr(mat, name, val)
+        num1 = fluid_numbers(mat)
+        real, ref = run_real(mat, T, u, r_), reference(num1, T, u, r_)
+        ctx.case(("mutated", k_mut), nontrivial=True, tag="parameters changed after first use")
+        for j in range(n):
+            pb = predicate_point(num1, real, ref, j, float(T[j]), float(u[j]), float(r_[j]))
+            if pb:
+                mut_bad.append(({"fluid": spec, "then_set": new, "T": float(T[j]), "u": float(u[j]), "r": float(r_[j]),
+                                 "first_use": {"T": T.tolist(), "u": u.tolist(), "r": r_.tolist()}}, pb))
+                break
+    ctx.obligation("property predicate after the object's documented parameters (window, laminar value/cut-off, floor) "
+                   "are changed following a first evaluation", not mut_bad,
+                   "%d of %d objects fail; first: %s" % (len(mut_bad), 4 if quick else 20, [m[1][:1] for m in mut_bad[:1]]))
+
     # ---- monotonicity in u on turbulent sweeps (real code) ----
     sw_specs = specs + [s for s in specs_rand if s is not None][: (6 if quick else 60)]
     sw_fail, sw_n = monotone_sweeps(ctx, rng, sw_specs, 3 if quick else 12, 60 if quick else 200)
@@ -527,6 +557,10 @@ def run(ctx):
                       {"fluid": mats[si][2], "T": T, "u": u, "r": r, "all_failures": pb,
                        "n_failing_cases": len(pred_bad), "n_cases": len(cases)},
                       signature="c18:" + pb[0].split(" ")[0])
+    elif mut_bad:
+        rep_, pb = mut_bad[0]
+        ctx.violation("real thermalfluid code, parameters changed after a first evaluation: " + pb[0],
+                      dict(rep_, all_failures=pb, mutated=True), signature="c18:stale-parameters")
     elif sw_fail:
         spec, T, u1, u2, r, f1, f2 = sw_fail[0]
         ctx.violation("real film_coefficient decreases from %r to %r when u goes from %r to %r (turbulent)" % (f1, f2, u1, u2),
@@ -553,6 +587,12 @@ def replay(obj):
         print("replay names no input:", r)
         return 1
     mat = make_fluid(r["fluid"])
+    if r.get("mutated"):
+        fu = r["first_use"]
+        run_real(mat, fu["T"], fu["u"], fu["r"])
+        for name, val in r["then_set"].items():
+            setattr(mat, name, val)
+        print("first evaluated with the parameters as loaded, then set", r["then_set"])
     num = fluid_numbers(mat)
     if r.get("sweep"):
         real = run_real(mat, [r["T"], r["T"]], [r["u"], r["u2"]], [r["r"], r["r"]])
